@@ -334,7 +334,7 @@ def check_source(trace, stats=None, cuts=None, corruptions=None):
         endl = []
         # (the cut file is read with another content of uninitialised memory than the uncut one: frames that were
         # pre-allocated for more data than arrived must not differ from the frames of the uncut file)
-        rec = c07.run_load(name, fmt, "load_many", data, ("exhaust", 0), {"mem": 1 + ncut % 3}, budget, endlines=endl)
+        rec = c07.run_load(name, fmt, "load_many", data, ("exhaust", 0), {"mem": 1 + ncut % 3, "short_read": (None, 1, 5, 61)[ncut % 4]}, budget, endlines=endl)
         n_eval += 1
         vs = []
         for v in _generic({**t7, "faults": [{"kind": "crash_prefix", "n": offs[ncut]}]}, rec):
@@ -378,6 +378,9 @@ def check_source(trace, stats=None, cuts=None, corruptions=None):
                 stats.inc("probe.lockstep_runs")
         if stats is not None:
             stats.inc("fault.crash_prefix")
+            if ncut % 4:
+                stats.inc("fault.short_read")
+                stats.inc("short_read_calls", rec.get("short_reads", 0))
             stats.inc("steps", rec["steps"])
             stats.inc(f"outcome.cut_{type(exc).__name__ if exc else 'ok'}")
             if len(Y) > complete:
